@@ -84,7 +84,7 @@ func init() {
 			if tier == "thorough" {
 				return 3000
 			}
-			return 96
+			return 192
 		},
 		Run:  runC16,
 		Need: []string{"proposals", "invalid_proposals", "valid_applied"},
